@@ -379,7 +379,20 @@ void BppODiscreteDistributionFormat::writeDiscreteDistribution(
       auto it(range.begin());
       while (it != range.end())
       {
-        out << "V" << TextTools::toString(it->first);
+        // Ranges are numbered as the value parameters V1, V2... (construction order), whereas the
+        // values are written sorted: the range must follow its value.
+        size_t num = it->first;
+        string vName = "V" + TextTools::toString(it->first);
+        if (ps.hasParameter(vName))
+        {
+          double v = ps.getParameterValue(vName);
+          for (size_t i = 0; i < nd; ++i)
+          {
+            if (ps.getCategory(i) == v)
+              num = i + 1;
+          }
+        }
+        out << "V" << TextTools::toString(num);
         out << "[" << TextTools::toString(it->second[0]) << ";" << TextTools::toString(it->second[1]) << "]";
         it++;
         if (it != range.end())
